@@ -61,38 +61,31 @@ structure Judged where
   tags : List String := []
   wfAfter : Option Bool := none
 
-/-- qualified references that do not read a field of their own qualified name (diagnostics only; the verdict is `PlanWf.qualP`) -/
-partial def misq (scopes : List Schema) : List PExpr → List String
-  | [] => []
-  | e :: es =>
-    (match e with
-     | .col (some r) name => if qualRef scopes r name then [] else
-         [s!"{r}.{name} (reads {(firstScope scopes (some r) name).bind (fun s => (resolve s (some r) name).bind (fun i => s[i]?.map (·.qname)))})"]
-     | .op _ _ args => misq scopes args
-     | .alias e' _ => misq scopes [e']
-     | .sub _ _ args _ => misq scopes args
-     | _ => []) ++ misq scopes es
-
-partial def qdiag (outer : List Schema) (p : Plan) : List String :=
-  let sch (q : Plan) := (outSchema q).map (·.qname)
-  let rep (what : String) (scope : Schema) (es : List PExpr) : List String :=
-    let u := misq (scope :: outer) es; if u.isEmpty then [] else [s!"{what}: {u} against {scope.map (·.qname)}"]
+/-- where the offending qualified references sit and what they read instead (diagnostics only; the verdict is `PlanWf.noNewBad`) -/
+partial def qdiag (outer : List QScope) (p : Plan) : List String :=
+  let rep (what : String) (sc : QScope) (es : List PExpr) : List String :=
+    let u := badEs (sc :: outer) es
+    if u.isEmpty then [] else
+      let reads := u.map fun x => match x.splitOn "." with
+        | [r, n] => ((firstScope (sc :: outer) r n).bind (fun (s : QScope) => (resolve s.1 (some r) n).bind (fun i => (s.1[i]?).map Field.qname)) : Option String)
+        | _ => none
+      [s!"{what}: {u} read {reads} of the input {sc.1.map (·.qname)}"]
   match p with
-  | .scan t s proj filter => rep s!"Scan {t} filter" (match proj with | some idx => projectSchema s idx | none => s) filter
-  | .filter pred i => qdiag outer i ++ rep "Filter" (outSchema i) [pred]
-  | .project exprs _ i => qdiag outer i ++ rep "Project" (outSchema i) exprs
-  | .join jt onL onR filter _ l r => qdiag outer l ++ qdiag outer r ++ rep s!"Join {repr jt} left keys" (outSchema l) onL
-      ++ rep s!"Join {repr jt} right keys" (outSchema r) onR ++ rep s!"Join {repr jt} filter" (outSchema l ++ outSchema r) filter
-  | .agg group aggs _ i => qdiag outer i ++ rep "Aggregate" (outSchema i) (group ++ aggs)
-  | .window _ w _ i => qdiag outer i ++ rep "Window" (outSchema i) w
-  | .sort keys _ i => qdiag outer i ++ rep "Sort" (outSchema i) keys
+  | .scan t s proj filter => let ps := (match proj with | some idx => projectSchema s idx | none => s); rep s!"Scan {t} filter" (ps, ps) filter
+  | .filter pred i => qdiag outer i ++ rep "Filter" (qscope i) [pred]
+  | .project exprs _ i => qdiag outer i ++ rep "Project" (qscope i) exprs
+  | .join jt onL onR filter _ l r => qdiag outer l ++ qdiag outer r ++ rep s!"Join {repr jt} left keys" (qscope l) onL
+      ++ rep s!"Join {repr jt} right keys" (qscope r) onR ++ rep s!"Join {repr jt} filter" (outSchema l ++ outSchema r, logSchema l ++ logSchema r) filter
+  | .agg group aggs _ i => qdiag outer i ++ rep "Aggregate" (qscope i) (group ++ aggs)
+  | .window _ w _ i => qdiag outer i ++ rep "Window" (qscope i) w
+  | .sort keys _ i => qdiag outer i ++ rep "Sort" (qscope i) keys
   | .limit _ _ i => qdiag outer i
   | .distinct i => qdiag outer i
   | .union _ _ inputs => inputs.flatMap (qdiag outer)
   | .alias _ _ _ i => qdiag outer i
-  | .delimJoin _ delim onL onR _ l r => qdiag outer l ++ qdiag outer r ++ rep "DelimJoin left keys" (outSchema l) (delim ++ onL) ++ rep "DelimJoin right keys" (outSchema r) onR
-  | .vsearch _ _ sortKey _ _ _ i => qdiag outer i ++ rep "VectorSearch" (outSchema i) [sortKey]
-  | _ => let _ := sch; []
+  | .delimJoin _ delim onL onR _ l r => qdiag outer l ++ qdiag outer r ++ rep "DelimJoin left keys" (qscope l) (delim ++ onL) ++ rep "DelimJoin right keys" (qscope r) onR
+  | .vsearch _ _ sortKey _ _ _ i => qdiag outer i ++ rep "VectorSearch" (qscope i) [sortKey]
+  | _ => []
 
 /-- one rule application: `after` must exist, be well-formed and keep the reported schema -/
 def judge (label : String) (before : Plan) (after : Json) : Except String (Judged × Option Plan) := do
@@ -102,8 +95,8 @@ def judge (label : String) (before : Plan) (after : Json) : Except String (Judge
   | .ok a =>
     let w := wf a
     let p := preserved before a
-    -- the qualifier check is demanded of a rule only when its input passes it (otherwise the binder is at fault, tag `bound_misqualified`)
-    let q := qualP [] a || !qualP [] before
+    -- the qualifier check: the rule introduces no qualified reference that reads another relation's column
+    let q := noNewBad before a
     let f := if w && !q then some s!"{label}: the returned plan evaluates a qualified column reference against an input that has no column of that qualified name (the executor silently falls back to another relation's column of the same bare name): {(qdiag [] a).take 2}"
              else if !w then some s!"{label}: the returned plan is not well-formed (a column reference does not resolve in its input, or an arity does not match): {(diag [] a).take 2}; {describe a}"
              else if !p then some s!"{label}: output schema changed from {nameTy (schemaOf before)} to {nameTy (schemaOf a)}"
@@ -129,7 +122,7 @@ def handler : Driver.Handler := fun c i => do
       -- the binder's own plan does not pass the checker: not a rule's fault; reported as a correspondence problem of the wf model
       return { model := Json.mkObj [("bound_wf", false), ("bound", describe bound)], k := false, nt := false, tags := baseTags ++ ["bound_not_wf"] }
     let mut fails : List String := []
-    let mut tags : List String := baseTags ++ (if qualP [] bound then [] else ["bound_misqualified"])
+    let mut tags : List String := baseTags ++ (if qualP bound then [] else ["bound_misqualified"])
     let mut modelItems : List (String × Json) := []
     let mut planOf : List (String × Plan) := [("bound", bound)]
     -- each rule alone on the bound plan
